@@ -466,6 +466,14 @@ pub fn plans(tier: &str) -> Vec<(Params, Cost)> {
             Params { name: "crash-restart-crash/2-writers/rotate-every-entry".into(), crash: true, max_crashes: 2, writers: vec![vec![(1, 0), (3, 0)], vec![(2, 0), (4, 0)]], after_restart: vec![(5, 0)], after_restart2: vec![(6, 0)], max_segment_size: 1, ticks: 1, ..base.clone() },
             Cost { preempt: 1, crash: 2, ..Cost::ZERO },
         ));
+        v.push((
+            Params { name: "2 faults+crash/schema-change".into(), crash: true, faults: true, writers: vec![vec![(1, 0), (3, 1)], vec![(2, 0)]], after_restart: vec![], ticks: 1, ..base.clone() },
+            Cost { preempt: 0, fault: 2, crash: 1, ..Cost::ZERO },
+        ));
+        v.push((
+            Params { name: "2 faults+crash/one-schema/4-writes".into(), crash: true, faults: true, writers: vec![vec![(1, 0), (3, 0), (4, 0)], vec![(2, 0)]], after_restart: vec![], ticks: 1, ..base.clone() },
+            Cost { preempt: 0, fault: 2, crash: 1, ..Cost::ZERO },
+        ));
         v.push((Params { name: "crash/all-hooks".into(), crash: true, hooks: hooks(true), ..base.clone() }, Cost { preempt: 2, crash: 1, ..Cost::ZERO }));
         v.push((Params { name: "crash/3-preemptions".into(), crash: true, ..base.clone() }, Cost { preempt: 3, crash: 1, ..Cost::ZERO }));
         v.push((
